@@ -362,6 +362,10 @@ def lower_selfdestruct(node: vy_ast.Call, ctx: VenomCodegenContext) -> IROperand
     b = ctx.builder
 
     to = Expr(node.args[0], ctx).lower_value()
+    if ctx.func_t is not None:
+        # SELFDESTRUCT halts without passing the function's exit sequence:
+        # release the nonreentrant lock first (no-op if not nonreentrant)
+        ctx.emit_nonreentrant_unlock(ctx.func_t)
     b.selfdestruct(to)
 
     return IRLiteral(0)  # Unreachable
